@@ -1590,6 +1590,48 @@ def load_many(repo, reqs):
         return dict(ex.map(one, reqs))
 
 
+def cached_generate(unit, repo, gen_dir, deps, fn):
+    """fn() -> (text, errors), memoised on the CONTENT of everything the result depends on: the translator sources, every
+    file under <repo>/include, the listed source files of <repo> and generated files in gen_dir.  (A clang run per
+    translation unit costs seconds; the check of every property runs every translator.)  The key is recomputed on every
+    run, so any edit of the sources is seen; system headers (Eigen) are fixed by the environment."""
+    import hashlib
+    import json
+    h = hashlib.sha256()
+    here = os.path.dirname(os.path.abspath(__file__))
+    files = [os.path.join(here, f) for f in sorted(os.listdir(here)) if f.endswith(".py")]
+    for root, _, fs in sorted(os.walk(os.path.join(repo, "include"))):
+        files += [os.path.join(root, f) for f in sorted(fs)]
+    files += [os.path.join(repo, f) for f in deps.get("src", [])] + [os.path.join(gen_dir, f) for f in deps.get("gen", [])]
+    for f in files:
+        h.update(f.encode() + b"\0")
+        try:
+            with open(f, "rb") as fh:
+                h.update(fh.read())
+        except OSError:
+            h.update(b"<missing>")
+        h.update(b"\0")
+    key = h.hexdigest()
+    cdir = os.path.join(here, "..", "build", "eigensym")
+    cfile = os.path.join(cdir, unit + ".json")
+    try:
+        with open(cfile) as fh:
+            c = json.load(fh)
+        if c.get("key") == key:
+            return c["text"], [tuple(e) for e in c["errors"]]
+    except (OSError, ValueError, KeyError):
+        pass
+    text, errors = fn()
+    try:
+        os.makedirs(cdir, exist_ok=True)
+        with open(cfile + ".tmp", "w") as fh:
+            json.dump({"key": key, "text": text, "errors": errors}, fh)
+        os.replace(cfile + ".tmp", cfile)
+    except OSError:
+        pass
+    return text, errors
+
+
 def write_if_changed(path, text):
     old = open(path).read() if os.path.exists(path) else None
     if old != text:
